@@ -102,9 +102,17 @@ def check_polyn(cx, rep):
             ev = folds[0]
             # value on the empty vector
             nfe = NF({('icmp', 'ne', lenc, ('ic', 0)): False, ('icmp', 'eq', lenc, ('ic', 0)): True})
-            v0 = nfe(ret)
-            if not (v0.is_const() and v0.const_value() == 0):
-                problems.append('empty coefficient vector does not evaluate to 0: ' + nfe.show(v0))
+            from ..terms import simp as _simp
+            r_empty = _simp(ret, {('icmp', 'ne', lenc, ('ic', 0)): False, ('icmp', 'eq', lenc, ('ic', 0)): True})
+            zero_init = ev['init'][0] == 'fc' and nfe(ev['init']).is_zero()
+            if r_empty == ev['term']:
+                # the fold itself is the result also on the empty vector: a fold over no elements is its initial value
+                if not (zero_init and NF()(ev['len']).equals(NF()(lenc))):
+                    problems.append('empty coefficient vector evaluates to the initial accumulator %s, expected 0' % term_str(ev['init'])[:80])
+            else:
+                v0 = nfe(ret)
+                if not (v0.is_const() and v0.const_value() == 0):
+                    problems.append('empty coefficient vector does not evaluate to 0: ' + nfe.show(v0))
             nfn = NF({('icmp', 'ne', lenc, ('ic', 0)): True, ('icmp', 'eq', lenc, ('ic', 0)): False})
             vn = nfn(ret)
             if not vn.equals(nfn(ev['term'])):
@@ -137,11 +145,16 @@ def check_polyn(cx, rep):
                             problems.append('coefficient c[%s] is paired with x^(%s) (index ≠ exponent)' %
                                             (nb.show(q), nb.show(want)))
                     init = ev['init']
-                    if not (init[0] == 'elem' and init[1] == ('seq', 'self.0') and nb(init[2]).equals(nb(m))):
-                        problems.append('initial accumulator %s is not the coefficient of x^m (m = %s)' %
-                                        (term_str(init), nb.show(nb(m))))
-                    if not (nb(m) + RF.const(1)).equals(nb(lenc)):
-                        problems.append('fold covers %s coefficients + 1, vector has len' % nb.show(nb(m)))
+                    if init[0] == 'fc' and nb(init).is_zero():
+                        # Horner from 0 over all coefficients: 0·x + c_{n−1} = c_{n−1} exactly (finite x)
+                        if not nb(m).equals(nb(lenc)):
+                            problems.append('fold from 0 covers %s coefficients, vector has len' % nb.show(nb(m)))
+                    else:
+                        if not (init[0] == 'elem' and init[1] == ('seq', 'self.0') and nb(init[2]).equals(nb(m))):
+                            problems.append('initial accumulator %s is not the coefficient of x^m (m = %s)' %
+                                            (term_str(init), nb.show(nb(m))))
+                        if not (nb(m) + RF.const(1)).equals(nb(lenc)):
+                            problems.append('fold covers %s coefficients + 1, vector has len' % nb.show(nb(m)))
                     ops = float_dag_ops(ev['body'])
                     if set(ops) - {'fma', 'f+', 'f*'}:
                         problems.append('Horner step uses ops %s' % ops)
